@@ -166,6 +166,19 @@ class Processes:
         self._sync: dict[str, bool] = {}  # Per-service sync mode (default: False)
         self._broken: list[str] = []
         self._respawning: dict[str, dict[int, int]] = {}
+        # helpers which ended and are started again once the commands they left have been run
+        self._respawn_pending: set[str] = set()
+
+    def _has_queued_commands(self, process: str) -> bool:
+        return any(name == process for name, _ in self._command_queue)
+
+    def _respawn(self, process: str) -> None:
+        try:
+            self._start(process)
+        except ProcessError:
+            # Respawn limit exceeded - process is already terminated and logged
+            # Don't propagate exception into asyncio event loop
+            pass
 
     def _handle_problem(self, process: str) -> None:
         if process not in self._process:
@@ -173,12 +186,14 @@ class Processes:
         if self.respawn_number and self._restart[process]:
             log.debug(lazymsg('process.ended.restarting process={p}', p=process), 'processes')
             self._terminate(process)
-            try:
-                self._start(process)
-            except ProcessError:
-                # Respawn limit exceeded - process is already terminated and logged
-                # Don't propagate exception into asyncio event loop
-                pass
+            if self._has_queued_commands(process):
+                # What it wrote before it went is still to be run (a script which writes its routes and
+                # exits), and the answers are for nobody.  Replies are addressed by name: started now, the
+                # new program would read the 'done' of commands it never wrote, and be one reply late for
+                # ever.  It is started once these commands are out of the queue (received_async).
+                self._respawn_pending.add(process)
+                return
+            self._respawn(process)
         else:
             log.debug(lazymsg('process.ended process={p}', p=process), 'processes')
             self._terminate(process)
@@ -202,6 +217,8 @@ class Processes:
 
         self._buffer.pop(process_name, None)
         clear_group(process_name)
+        # what was waiting to be written was for this program, not for the one which may take its name
+        self._write_queue.pop(process_name, None)
         self._update_fds()
         thread = Thread(target=self._terminate_run, args=(process, process_name))
         thread.start()
@@ -701,6 +718,16 @@ class Processes:
         Yields:
             Tuple of (process_name, command) for each buffered command
         """
+        # The helpers which ended with commands still queued: the last of them was handed over by the
+        # previous call and has been run and answered (to nobody) since
+        for process in list(self._respawn_pending):
+            if not self._has_queued_commands(process):
+                self._respawn_pending.discard(process)
+                from exabgp.reactor.api.command.group import clear_group
+
+                clear_group(process)
+                self._respawn(process)
+
         # Yield only ONE buffered command (matches sync version behavior)
         if self._command_queue:
             yield self._command_queue.popleft()
